@@ -1,5 +1,8 @@
 #pragma once
 
+#include <ctype.h>
+#include <errno.h>
+
 #include <optional>
 #include <string>
 #include <unordered_map>
@@ -179,6 +182,7 @@ private:
   static RetT parse_int(const IdentT& id, const std::string& text, IntFormat format) {
     int64_t v;
     char* conversion_end;
+    errno = 0;
     switch (format) {
       case IntFormat::DEFAULT:
         v = strtoull(text.c_str(), &conversion_end, 0);
@@ -211,14 +215,27 @@ private:
       throw std::invalid_argument(exc_prefix(id) + "extra data after integer");
     }
 
+    if (errno == ERANGE) {
+      throw std::invalid_argument(exc_prefix(id) + "value out of range");
+    }
+
+    // strtoull negates the value if the text has a minus sign; to check the
+    // range, we need the magnitude that was actually written. (Otherwise, a
+    // magnitude close to 2^64 would look like a small value of the other sign.)
     uint64_t uv = static_cast<uint64_t>(v);
+    size_t sign_offset = 0;
+    while (isspace(static_cast<unsigned char>(text[sign_offset]))) {
+      sign_offset++;
+    }
+    bool negative = (text[sign_offset] == '-');
+    uint64_t magnitude = negative ? (~uv + 1) : uv;
     if (std::is_unsigned_v<RetT>) {
-      if (uv & (~mask_for_type<RetT>)) {
+      if ((sizeof(RetT) < 8) && ((negative && magnitude) || (magnitude & (~mask_for_type<RetT>)))) {
         throw std::invalid_argument(exc_prefix(id) + "unsigned value out of range");
       }
       return uv;
     } else {
-      if (((uv & (~(mask_for_type<RetT> >> 1))) != 0) && ((uv & (~(mask_for_type<RetT> >> 1))) != (~(mask_for_type<RetT> >> 1)))) {
+      if ((sizeof(RetT) < 8) && (magnitude > ((mask_for_type<RetT> >> 1) + (negative ? 1 : 0)))) {
         throw std::invalid_argument(exc_prefix(id) + "signed value out of range");
       }
       return v;
